@@ -931,6 +931,12 @@ namespace fixedmath
     
     if( fixed_likely( x != fixpidiv2.v ) )
       {
+      //second quadrant tan(x) = -tan(phi-x), series is valid only for -phi/4 .. phi/4
+      if( x > fixpidiv2.v )
+        {
+        x = phi.v - x;
+        sign_ = !sign_;
+        }
       fixed_internal res_tan {};
       if( x <= fixpidiv4.v )
         res_tan = tan_<prec_+prec_inc>(x<<prec_inc)>>prec_inc;
